@@ -1,4 +1,4 @@
-import Gimli.Drv.C09
+import Gimli.Drv.All
 /-!
 `gimli-model`: the executable Model behind a one-line-in, one-line-out protocol.
 Each request is `<op> <args…>`; the same line is answered by `gvh worker` from the real crate.
@@ -6,8 +6,7 @@ Handlers are tried in order; an op nobody knows answers `bad-op`.
 -/
 open Gimli
 
-def handlers : List (String → List String → Option String) :=
-  [ Drv.C09.handle ]
+def handlers : List (String → List String → Option String) := Drv.allHandlers
 
 def answer (line : String) : String :=
   match (line.trimAscii.toString.splitOn " ").filter (· ≠ "") with
